@@ -3,6 +3,8 @@
    [rdnss_current (Some l)] is RDNSS.current on the address list l, [better] is betterRDNSS,
    [rdnss_Apply] is RDNSS.Apply, [parse_rdnss] the server-list part of parseRDNSS. *)
 From CR Require Import Model.Wildcard.
+(* Prepare binds Addrs to a function that asks rtnetlink at every call; NewAddresser is the rtnetlink addresser (extracted): fresh_sources in Properties/Fresh.v *)
+From CR Require Properties.Fresh.
 From CR Require Import Proofs.WildcardSort.
 From CR Require Import Proofs.Wildcard.
 From CR Require Import Proofs.WildcardRDNSS.
